@@ -26,6 +26,11 @@ Progs == {[ops |-> Prog(a, rep, s)] : a \in 0 .. 5, rep \in {"norm", "flip", "pr
          \* and y at the boundary of the sign choice
          \cup {[ops |-> ProgFrom(Op("ypt", 1, i, 0, "ydyad", <<>>), "2")] : i \in 0 .. (IF Tier = "quick" THEN 31 ELSE 63)}
          \cup {[ops |-> ProgFrom(Op("ypt", 1, i, 0, c, <<>>), "r-1")] : i \in 0 .. 5, c \in {"yhalf", "ypat", "yhalf192"}}
+         \* LARGE batches (a helper that splits long lists among workers / chunks does so beyond any length the histories reach): lengths
+         \* around 1024, 2048, 4096 and lengths that 3, 4, 5, 7, 16 workers do not divide; distinct pointers and repeated pointers
+         \cup {[ops |-> << Op("id", 1, 0, 0, "", <<>>), Op(o, 0, n, 0, pat, <<>>) >>] :
+                 o \in {"Bnorm", "Bbytes", "Bunc", "Bmap"}, pat \in {"distinct", "pairs"},
+                 n \in (IF Tier = "quick" THEN {1023, 1027, 2049, 3001} ELSE {1023, 1024, 1025, 1027, 1290, 2047, 2048, 2049, 3001, 4095, 4097, 5003})}
 VARIABLE done
 Init == done = FALSE
 Next == ~done /\ done' = ndJsonSerialize(Out, SetToSeq(Progs))
